@@ -579,7 +579,13 @@ fn dump_body<'tcx>(tcx: TyCtxt<'tcx>, ldid: LocalDefId) -> J {
             o.push(("trait_item", J::s(&def_path(tcx, ti))));
         }
     }
-    let light = exp == 3 && std::env::var("MIRFACTS_FULL").is_err();
+    // Macro-generated bodies are dumped in light form unless they contain user-written tokens
+    // (e.g. logos pastes the inline `|lx| ...` callbacks of `#[regex(..)]` into generated fns).
+    let has_user_code = body.basic_blocks.iter().any(|bb| {
+        exp_class(bb.terminator().source_info.span) == 0
+            && matches!(bb.terminator().kind, TerminatorKind::Call { .. } | TerminatorKind::Assert { .. })
+    });
+    let light = exp == 3 && !has_user_code && std::env::var("MIRFACTS_FULL").is_err();
     o.push(("light", J::Bool(light)));
     let cx = Cx { tcx, body, env, owner: did };
     let _ = cx.owner;
